@@ -68,6 +68,7 @@ DEVIATIONS = {
     'LineNumsRangeCached': ('OwnSymbols', 'symLineNums'),
     'PreprocessorArgsAccumulate': ('ThreeWaysAgree', 'sym'),
     'ValidatedValueCached': ('OwnSymbols', 'symBad'),
+    'ReferencesValidatedOnce': ('OwnSymbols', 'symRefs'),
 }
 
 
@@ -92,7 +93,8 @@ def cfg(families, muts=ALL_MUTS, core_muts=CORE_MUTS, ends=ENDS, later=ALL_MUTS,
 # ======================================================================================== concretisation
 # One table: abstract instruction -> source text.  @HOME@ (directory of the root suite) and @LOG@ (the file the
 # probes append to, outside every sandbox) are filled in by the worker.
-ATOMS = {a: a for a in ('va', 'vb', 'vc', 'vd', 've', 'b0', '+', '*', 'x1', 'x2', 's1', 'v1', 'v2', 'v3', 'vbad')}
+ATOMS = {a: a for a in ('va', 'vb', 'vc', 'vd', 've', 'b0', '+', '*', 'x1', 'x2', 's1', 'v1', 'v2', 'v3', 'vbad', 'vnone',
+                        'vtype')}
 PP_MARK, PP_DONE = 'PPMARK', 'PPDONE'
 PHASES = ['conf', 'setup', 'act', 'before-assert', 'assert', 'cleanup']
 SCOPE_OPT = {'all': '', 'act': '-of act ', 'non': '-of !act '}
@@ -149,11 +151,16 @@ def sds_lines(kind, tag):
 
 def val_no(v):
     """v1 v2 v3 -> 1 2 3; vbad -> 4 (values like any other, but the INTEGERs and the REGEX are ill-formed)"""
-    return 4 if v == 'vbad' else int(v[1:])
+    return {'vbad': 4, 'vnone': 5, 'vtype': 6}.get(v) or int(v[1:])
 
 
 def own_definitions(n):
     """what case number-of-value n of the sym family defines: one symbol per type, each with a value of its own"""
+    if n == 6:      # every symbol with a type that no reference of the suite accepts
+        return ['def line-matcher V_S = line-num == 1', 'def text-matcher V_N = is-empty', 'def text-matcher V_L = is-empty',
+                'def line-matcher V_T = line-num == 1', 'def text-matcher V_RX = is-empty', 'def line-matcher V_P = line-num == 1',
+                'def string V_TM = is-empty', 'def string V_TT = strip', 'def string V_IM = 1', 'def string V_LM = 1',
+                'def string V_R = true', 'file -rel-tmp own.txt = s6', 'file -rel-tmp own6.txt = x']
     return ['def string V_S = s%d' % n,
             'def string V_N = %s' % (n if n != 4 else 'x'),
             'def list V_L = a%d b%d' % (n, n),
@@ -764,9 +771,9 @@ def plans(tier):
         return [('main', dict(families=['hist', 'merge', 'sds', 'sym'], ends=QUICK_ENDS,
                               later=['none', 'refX', 'def', 'obsT', 'expand'],
                               len_all=2, len_core=0, merge_case_sets='two', sds_cases=(2,),
-                              sym_vals=('v1', 'v2', 'vbad')), None)]
+                              sym_vals=('v1', 'v2', 'vbad', 'vnone', 'vtype')), None)]
     return [('main', dict(families=['hist', 'merge', 'sds', 'sym'], len_all=2, len_core=3, merge_case_sets='all',
-                          sds_cases=(2, 3), sym_vals=('v1', 'v2', 'v3', 'vbad'), sym_len=3), None),
+                          sds_cases=(2, 3), sym_vals=('v1', 'v2', 'v3', 'vbad', 'vnone', 'vtype'), sym_len=3), None),
             ('triples', dict(families=['hist'], ends=QUICK_ENDS, later=['none', 'refX', 'def', 'obsT', 'expand', 'envAct'],
                              len_all=3, len_core=4), None),
             ('random', dict(families=['file']), 1500)]
@@ -809,7 +816,8 @@ def run(ctx):
                  sds=dict(families=['sds'], sds_kinds=['arg', 'equals']),
                  sym=dict(families=['sym'], sym_kinds=['strArg', 'exitCode', 'timeoutInt']),
                  symLineNums=dict(families=['sym'], sym_kinds=['lineNums', 'lineNum']),
-                 symBad=dict(families=['sym'], sym_kinds=['strArg', 'exitCode', 'matchesRx'], sym_vals=('v1', 'vbad')))
+                 symBad=dict(families=['sym'], sym_kinds=['strArg', 'exitCode', 'matchesRx'], sym_vals=('v1', 'vbad')),
+                 symRefs=dict(families=['sym'], sym_kinds=['strArg', 'equalsStr'], sym_vals=('v1', 'vnone', 'vtype')))
     refutations = {}
     gate = threading.Semaphore(3)
 
